@@ -749,6 +749,12 @@ def build_unit(unit_dir, repo, reach=False):
                 if key in contracts:
                     raise Unsupported("duplicate contract for %s" % (key,))
                 contracts[key] = c
+    for rel in U.get('vc_include', []):
+        for c in parse_vc(os.path.join(unit_dir, rel)):
+            key = (c.file, tuple(c.path))
+            if key in contracts:
+                raise Unsupported("duplicate contract for %s" % (key,))
+            contracts[key] = c
     used = set()
     G = Generated()
     G.unit = unit
